@@ -268,6 +268,14 @@ func (it *Interp) Eval(e ast.Expr) *sym.E {
 	return sym.Atom("?" + it.Text(e))
 }
 
+// AliasAtom makes every path through o read as if the variable were called name (the analyses of generated
+// methods call the receiver "m" whatever the template names it).
+func (it *Interp) AliasAtom(o types.Object, name string) {
+	if o != nil {
+		it.alias[o] = sym.Atom(name)
+	}
+}
+
 // NoteRead records that a struct field path was read.
 func (it *Interp) NoteRead(p string) { it.noteRead(p) }
 
